@@ -802,7 +802,7 @@ class Tuple(Criterion):
         for value in self.values:
             yield from value.nodes_()
 
-    def get_sql(self, **kwargs: Any) -> str:
+    def get_sql(self, with_alias: bool = False, **kwargs: Any) -> str:
         sql = "({})".format(",".join(term.get_sql(**kwargs) for term in self.values))
         return format_alias_sql(sql, self.alias, **kwargs)
 
@@ -826,7 +826,7 @@ class Tuple(Criterion):
 
 
 class Array(Tuple):
-    def get_sql(self, **kwargs: Any) -> str:
+    def get_sql(self, with_alias: bool = False, **kwargs: Any) -> str:
         dialect = kwargs.get("dialect", None)
         values = ",".join(term.get_sql(**kwargs) for term in self.values)
 
@@ -996,7 +996,7 @@ class ContainsCriterion(Criterion):
         self.term = self.term.replace_table(current_table, new_table)
         self.container = self.container.replace_table(current_table, new_table)
 
-    def get_sql(self, subquery: Any = None, **kwargs: Any) -> str:
+    def get_sql(self, subquery: Any = None, with_alias: bool = False, **kwargs: Any) -> str:
         sql = "{term} {not_}IN {container}".format(
             term=_operand_sql(self.term, **kwargs),
             container=self.container.get_sql(subquery=True, **kwargs),
@@ -1065,7 +1065,7 @@ class RangeCriterion(Criterion):
 
 
 class BetweenCriterion(RangeCriterion):
-    def get_sql(self, **kwargs: Any) -> str:
+    def get_sql(self, with_alias: bool = False, **kwargs: Any) -> str:
         # FIXME escape
         sql = "{term} BETWEEN {start} AND {end}".format(
             term=_operand_sql(self.term, **kwargs),
@@ -1112,7 +1112,7 @@ class BitwiseAndCriterion(Criterion):
         if isinstance(self.value, Term):
             self.value = self.value.replace_table(current_table, new_table)
 
-    def get_sql(self, **kwargs: Any) -> str:
+    def get_sql(self, with_alias: bool = False, **kwargs: Any) -> str:
         sql = "({term} & {value})".format(
             term=self.term.get_sql(**kwargs),
             value=self.value,
@@ -1385,7 +1385,7 @@ class Not(Criterion):
         yield self
         yield from self.term.nodes_()
 
-    def get_sql(self, **kwargs: Any) -> str:
+    def get_sql(self, with_alias: bool = False, **kwargs: Any) -> str:
         kwargs["subcriterion"] = True
         sql = "NOT {term}".format(term=self.term.get_sql(**kwargs))
         return format_alias_sql(sql, self.alias, **kwargs)
@@ -1437,7 +1437,7 @@ class All(Criterion):
     def replace_table(self, current_table: Optional["Table"], new_table: Optional["Table"]) -> "All":
         self.term = self.term.replace_table(current_table, new_table)
 
-    def get_sql(self, **kwargs: Any) -> str:
+    def get_sql(self, with_alias: bool = False, **kwargs: Any) -> str:
         sql = "{term} ALL".format(term=self.term.get_sql(**kwargs))
         return format_alias_sql(sql, self.alias, **kwargs)
 
